@@ -115,6 +115,28 @@ fn child(args: &[String]) -> i32 {
     if args[0] == "2" || args[0] == "3" {
         return child_both(args);
     }
+    if args[0] == "4" || args[0] == "5" {
+        // the stream's ConsoleWriter used DIRECTLY as the encoder's writer (no lock()), or the plain stream when
+        // there is none: byte for byte what an unrestricted console appender on that stream writes
+        use log4rs::encode::writer::console::ConsoleWriter;
+        use log4rs::encode::writer::simple::SimpleWriter;
+        use log4rs::encode::Encode;
+        use std::io::Write as _;
+        let pattern = String::from_utf8(unhex(&args[2])).expect("utf8 pattern");
+        let lvl = level(args[3].parse::<u128>().expect("level"));
+        let msg = String::from_utf8(unhex(&args[4])).expect("utf8 message");
+        let enc = PatternEncoder::new(&pattern);
+        let cw = if args[0] == "4" { ConsoleWriter::stdout() } else { ConsoleWriter::stderr() };
+        let mut w: Box<dyn log4rs::encode::Write> = match cw {
+            Some(w) => Box::new(w),
+            None if args[0] == "4" => Box::new(SimpleWriter(std::io::stdout())),
+            None => Box::new(SimpleWriter(std::io::stderr())),
+        };
+        let r = enc
+            .encode(&mut *w, &log::Record::builder().level(lvl).target("tgt").args(format_args!("{}", msg)).build())
+            .and_then(|_| w.flush().map_err(Into::into));
+        unsafe { libc::_exit(if r.is_ok() { 0 } else { 3 }) }
+    }
     let target = if args[0] == "0" { Target::Stdout } else { Target::Stderr };
     let tty_only = args[1] != "0";
     let pattern = String::from_utf8(unhex(&args[2])).expect("utf8 pattern");
